@@ -342,7 +342,7 @@ def h_positions(ctx, cfg):
             back = J.code_data_from_json({"blocks": [], "filename": "f", "first_line_number": 1, "name": "n", "stacksize": 1, "type": doc}).type
         else:
             back = None
-        ctx.prove("roundtrip[%s]" % name, z3.BoolVal(back == v and type(back) is type(v) and repr(back) == repr(v)), detail="%r -> %r" % (v, back))
+        ctx.prove("roundtrip[%s]" % name, z3.BoolVal(back == v and type(back) is type(v) and (repr(back) == repr(v) or "frozenset" in repr(v))), detail="%r -> %r" % (v, back))
         if ok:
             again = J.value_to_json(back)
             ctx.prove("reserializes_to_the_identical_document[%s]" % name, z3.BoolVal(json.dumps(again, sort_keys=True) == json.dumps(doc, sort_keys=True) or "frozenset" in s))
